@@ -4,6 +4,7 @@ import (
 	"bytes"
 	"fmt"
 	"math/rand"
+	"sync"
 
 	"github.com/akalin/gopar/rsec16"
 
@@ -71,6 +72,11 @@ func (c *c07) Cases(tier string, seed int64) []core.Case {
 	cs = append(cs, core.MkCase("singular-search", c07Params{Mode: "singular-search", Seed: r.Int63(), Trials: map[string]int{"quick": 300, "thorough": 5000}[tier]}))
 	cs = append(cs, core.MkCase("limits", c07Params{Mode: "limits", Seed: r.Int63()}))
 	cs = append(cs, core.MkCase("zero-pivot-constructed", c07Params{Mode: "zero-pivot", Seed: r.Int63()}))
+	// coders of many different shapes built and used by several goroutines at
+	// the same time (anything remembered per shape is then shared)
+	for i := 0; i < map[string]int{"quick": 2, "thorough": 8}[tier]; i++ {
+		cs = append(cs, core.MkCase(fmt.Sprintf("concurrent-shapes-%d", i), c07Params{Mode: "concurrent-shapes", Seed: r.Int63(), Trials: map[string]int{"quick": 1500, "thorough": 6000}[tier]}))
+	}
 	// The GOARCH=386 build of the worker (32-bit int, portable kernels): the
 	// documented limits, two exhaustive grids and a few large random codes.
 	for _, cc := range []core.Case{
@@ -526,6 +532,73 @@ func (c *c07) Run(cs core.Case) core.Result {
 			c.trial(r, "vandermonde", coder, d, pc, 3, data, parity, miss, avail, false)
 		}
 		r.Sample(map[string]interface{}{"mode": "singular-search", "d": d, "p": pc, "trials": p.Trials})
+	case "concurrent-shapes":
+		const workers = 8
+		var mu sync.Mutex
+		var wg sync.WaitGroup
+		bad := 0
+		for w := 0; w < workers; w++ {
+			wg.Add(1)
+			go func(w int) {
+				defer wg.Done()
+				wr := rand.New(rand.NewSource(p.Seed + int64(w)*7919))
+				for it := 0; it < p.Trials; it++ {
+					kind := []string{"vandermonde", "cauchy"}[wr.Intn(2)]
+					d, pc := 1+wr.Intn(9), 1+wr.Intn(6)
+					data := randShards(wr, d, 2*(1+wr.Intn(3)))
+					var msg string
+					pi := core.Protect(func() {
+						var coder rsec16.Coder
+						var err error
+						if kind == "cauchy" {
+							coder, err = rsec16.NewCoderCauchy(d, pc, 1+wr.Intn(2))
+						} else {
+							coder, err = rsec16.NewCoderPAR2Vandermonde(d, pc, 1+wr.Intn(2))
+						}
+						if err != nil {
+							msg = "constructor: " + err.Error()
+							return
+						}
+						parity := coder.GenerateParity(data)
+						want := refParity(kind, data, pc)
+						for e := range want {
+							if string(parity[e]) != string(want[e]) {
+								msg = fmt.Sprintf("parity shard %d differs from the definition", e)
+								return
+							}
+						}
+						// lose the first data shard, keep the first parity shard
+						in := make([][]byte, d)
+						for i := 1; i < d; i++ {
+							in[i] = append([]byte{}, data[i]...)
+						}
+						par := make([][]byte, pc)
+						par[0] = append([]byte{}, parity[0]...)
+						if err := coder.ReconstructData(in, par); err != nil {
+							msg = "reconstruction of one shard from parity shard 0: " + err.Error()
+						} else if string(in[0]) != string(data[0]) {
+							msg = "nil error, wrong data"
+						}
+					})
+					mu.Lock()
+					r.Count("concurrent_coder_uses", 1)
+					if pi != nil || msg != "" {
+						bad++
+						if bad <= 3 {
+							if pi != nil {
+								r.Violate("panic-under-concurrent-use|"+pi.Frame, "%s d=%d p=%d while %d goroutines build and use coders of other shapes: %s", kind, d, pc, workers, pi.Msg)
+							} else {
+								r.Violate("wrong-result-under-concurrent-use", "%s d=%d p=%d while %d goroutines build and use coders of other shapes: %s", kind, d, pc, workers, msg)
+							}
+						}
+					}
+					mu.Unlock()
+				}
+			}(w)
+		}
+		wg.Wait()
+		r.Key("concurrent-shapes|%d", workers)
+		r.Sample(map[string]interface{}{"mode": "concurrent-shapes", "goroutines": workers, "uses_per_goroutine": p.Trials})
 	case "limits":
 		type lim struct {
 			kind   string
